@@ -60,7 +60,12 @@ def inv_forms(ix, cell=("H", "arg", 1)):
 def constrain_self(eng, st, cell, ix, allowed_errors=None, max_size=None):
     """INV + A-OFF on the iterator object stored at `cell`"""
     v = st.cells[cell]
-    v = set_at(v, (ix["buffer_offset"], ("v", 1), 0), Int(0, OFF, 64, False))
+    bo = get_at(v, (ix["buffer_offset"],))
+    if isinstance(bo, Enum):
+        v = set_at(v, (ix["buffer_offset"], ("v", 1), 0), Int(0, OFF, 64, False))
+    else:
+        # the offset kept as a plain integer (0 until the buffer is first compacted)
+        v = set_at(v, (ix["buffer_offset"],), Int(0, OFF, 64, False))
     ts = get_at(v, (ix["tag_stack"],))
     if isinstance(ts, Arr) and isinstance(ts.elem, Struct):
         el = ts.elem
@@ -1152,7 +1157,7 @@ def recover_mono_premises(ctx, rep):
         msgs.append("try_recover writes buffer_offset")
     # ensure_data_read keeps buffer_offset + position unchanged: decided by abstract interpretation (see rules/flow.py, R-OFFSET-BOOK)
     from rules import flow
-    for variant in ("None", "Some"):
+    for variant in flow.bo_variants(prog):
         res = flow._book_run(prog, variant)
         cur = [c for c in res["checks"] if c["what"].startswith("the cursor's stream offset")]
         if not cur:
